@@ -113,8 +113,14 @@ func c16Controller(args []string) {
 		case "idle":
 			time.Sleep(40 * time.Second)
 		case "execve", "execve-syncafter":
+			// the main process of the program ends after 300 ms (so that the kill meets every phase of a call), in the
+			// "-cred" variant it never ends by itself
+			mainSleep := "300"
+			if withCred {
+				mainSleep = "30000"
+			}
 			for {
-				env.runProbe(RunSpec{Script: "ignore 15;ignore 1;fork;ignore 15;fork;sleep 30000;endfork;sleep 30000;endfork;sleep 300;exit 0", Timeout: 40 * time.Second,
+				env.runProbe(RunSpec{Script: "ignore 15;ignore 1;fork;ignore 15;fork;sleep 30000;endfork;sleep 30000;endfork;sleep " + mainSleep + ";exit 0", Timeout: 40 * time.Second,
 					SyncFunc: func(pid int) error { fmt.Printf("PROG %d\n", pid); os.Stdout.Sync(); return nil }}, mode == "execve-syncafter")
 			}
 		case "fileops":
